@@ -10,6 +10,7 @@ import (
 	"encoding/json"
 	"errors"
 	"fmt"
+	"io"
 	"net"
 	"runtime"
 	"strconv"
@@ -955,6 +956,10 @@ func (s *scriptServer) run(script []CIn) *SObs {
 	if s.conf.Kind == "memtls" {
 		sc, _ := testTLS()
 		cfg = &lime.TCPConfig{TLSConfig: sc}
+		if (s.runs+len(script))%2 == 0 {
+			// with envelope tracing switched on: what is traced must not change what crosses the connection
+			cfg.TraceWriter = &discardTrace{w: io.Discard}
+		}
 	}
 	st := lime.NewTCPTransportOverConn(smem, true, cfg)
 	s.mu.Lock()
